@@ -282,7 +282,7 @@ def side_grid(m, neg, tier):
     return [Fraction(0)] + g if m.nmin is not None else g
 
 
-def gaps_of(m, neg, tier, rnd):
+def gaps_of(m, neg, tier, rnd, k=1):
     """Selected gaps [(lo, hi, classes)] between adjacent representable magnitudes of one sign."""
     g = side_grid(m, neg, tier)
     lim = limit(m, neg)
@@ -303,7 +303,8 @@ def gaps_of(m, neg, tier, rnd):
         if m.p is not None and b == pow2(floor_log2(b)) and a != 0 and 'subnormal' not in cl:
             cl.append('binade-end')
         allg.append((a, b, cl))
-    cap = 40 if tier == 'thorough' else 14
+    big = k is not None and k >= 6
+    cap = (40 if not big else (16 if k == 6 else (6 if k == 8 else 4))) if tier == 'thorough' else 14
     if len(allg) <= cap:
         return allg
     must = [x for x in allg if x[2] and 'binade-end' not in x[2]]
@@ -327,10 +328,11 @@ def positions(k, tier, rnd):
     w = 9 if k <= 4 else 6
     keep = set(range(1, w + 1)) | set(range(n - w, n)) | set(range(n // 2 - 2, n // 2 + 3))
     # around a few interior extended-grid points: j = 4u, 4u +- 1, 4u + 2 (tie)
-    for _ in range(6 if tier == 'thorough' else (3 if k <= 4 else 2)):
+    T = tier == 'thorough'
+    for _ in range((6 if k <= 6 else 3) if T else (3 if k <= 4 else 2)):
         u = rnd.randrange(1, 1 << k)
         keep |= {4 * u - 2, 4 * u - 1, 4 * u, 4 * u + 1, 4 * u + 2}
-    for _ in range(12 if tier == 'thorough' else 3):
+    for _ in range((12 if k <= 6 else 4) if T else 3):
         keep.add(rnd.randrange(1, n))
     return sorted(j for j in keep if 0 < j < n)
 
@@ -571,8 +573,9 @@ def check_value(res: Result, m, rng, k_ctx, label, case, x, thunk, nt_extra=(), 
     if ups != t:
         bias = abs(Fraction(ups, N) - frac)
         within = 'bias<=2^-k gap' if bias <= Fraction(1, N) else 'bias>2^-k gap'
-        which = 'ext value exact' if scaled.denominator == 1 else tc
-        fails.append((f'count of away-from-zero draws/{which}/{"too few" if ups < t else "too many"}',
+        # root-cause signature: where the k-digit-extended value lands decides which code path chose the direction
+        which = tc if (scaled.denominator != 1 and t in (0, N)) else 'ext value strictly between the neighbours'
+        fails.append((f'count of away-from-zero draws/{which}',
                       {'t': t, 'of': N, 'frac': show(frac), 'lo': show(vlo), 'hi': show(vhi)},
                       {'ups': ups, 'bias_in_gaps': show(Fraction(ups, N) - frac), 'bound': within}))
     nt = scaled.denominator != 1 or 'subnormal' in cl or 'topgap' in cl
@@ -629,7 +632,7 @@ def run_round_shard(res: Result, idx, k, tier, seed):
         rnd = random.Random(h64(seed, 'C17', idx, k, 'ops'))      # same operands for every mode
         oi = 0
         for neg in (False, True):
-            gl = gaps_of(m, neg, tier, rnd)
+            gl = gaps_of(m, neg, tier, rnd, k)
             lim = limit(m, neg)
             seen = set()
             for lo, hi, gcl in gl:
